@@ -34,6 +34,7 @@ unsigned char g_retired[NP];    /* number of reclaim() calls on the node */
 signed char g_cnt[NP];          /* number of guards of this handle protecting the node */
 _Bool g_unsafe;                 /* a dereference touched a node that is neither protected by a guard nor private */
 unsigned g_new, g_delete; _Bool g_bad_delete; unsigned in_newslot;
+_Bool g_fake_used; unsigned n_raw_guard, n_raw_unpinned;   /* raw-pointer guards, see g_set_ptr */
 unsigned char u_unlink[NP], u_retire[NP];   /* successful unlink CASes / reclaim() calls of the operation under test, per node */
 _Bool g_linked[NP];                         /* ghost: the node is reachable from head (maintained by the monitors and the environment) */
 unsigned char g_gen[NP];                    /* bumped when the environment re-uses the memory of a freed node */
@@ -90,7 +91,6 @@ static void g_swap(struct guard* a, struct guard* b) { struct guard t = *a; *a =
  *   STILL LINKED: p cannot be unlinked - hence not retired, not freed - before c is.
  * Otherwise the new guard is `fake`: it protects nothing (the node may already be reclaimed).  A fake guard may be dropped, but it must
  * never be dereferenced, retired through, or end up in a result (obligation hms.guard.raw_pinned). */
-_Bool g_fake_used; unsigned n_raw_guard, n_raw_unpinned;
 static _Bool raw_pinned(mptr p) {
   size_t i = NIDX(MP_get(p));
   if (MP_get(p) == 0) return 1;
